@@ -11,7 +11,7 @@ from multiprocessing import Pool
 from .. import common, build, gen_core
 from ..common import Check, log
 
-HEADER = "(import (scheme base) (scheme write))\n"
+HEADER = "(import (scheme base) (scheme write) (scheme eval))\n"
 
 
 def case_text(i, body):
@@ -26,7 +26,8 @@ def run_variant(variant, path, d):
         if l.startswith("#"):
             h = l[1:].split(" ", 1)[0]
             if h.isdigit():
-                got[int(h)] = l
+                # a case that reports twice (control returned twice from it) is itself a difference
+                got[int(h)] = l if int(h) not in got else got[int(h)] + "  ++REPORTED AGAIN++  " + l
     return got, (r.rc != 0 or r.timed_out), r.out[-500:]
 
 
